@@ -944,7 +944,7 @@ func main() {
 var genOutputs = map[string][]string{
 	"genConc": {"ConcGen.v"}, "genPerioConc": {"PerioConcGen.v"}, "genFlowDesc": {"FlowDescGen.v"}, "genPerio": {"PerioGen.v"},
 	"genRules": {"RulesGen.v"}, "genTimers": {"TimerGen.v"}, "genTxKey": {"TxKeyGen.v"}, "genUrrSeq": {"UrrSeqGen.v"},
-	"genUsageDec": {"UsageDecGen.v"}, "genBuffDec": {"BuffDecGen.v"},
+	"genUsageDec": {"UsageDecGen.v"}, "genBuffDec": {"BuffDecGen.v"}, "genLookup": {"LookupGen.v"},
 }
 
 var extraGenerators []func(root, outdir string)
